@@ -400,3 +400,60 @@ REG.spec('task_manager.py:TaskManager.cancel_tasks',
                      'forall(lambda k: implies(0 <= k < len(pub_log[len(old(pub_log))].uids), indom(self._tasks, pub_log[len(old(pub_log))].uids[k])))')],
     },
     serves   = ['C08'])
+
+
+# ------------------------------------------------------------------------------
+# C06: TaskManager._state_sub_cb - what of a state message reaches _update_tasks:
+# every task notification of the message, each once, in the order delivered (a
+# batch may carry several notifications for one task; dropping or reordering them
+# makes Task.state disagree with what was delivered)
+import z3 as _z3
+from pyvc import core as _C
+from pyvc.core import Val as _Val, coerce as _coerce
+
+SThing = T.Rec('SThing', type=OStr, uid=T.Str, state=OStr)
+REG.optional_keys['SThing'] = {'type', 'state'}
+SThingL = T.List(SThing)
+SMsg = T.Rec('SMsg', cmd=OStr, arg=SThingL)
+REG.optional_keys['SMsg'] = {'cmd'}
+
+def _ss_update(ex, node, st):
+    ts = _coerce(ex.ev(node.args[0], st), SThingL)
+    log = ex.get_var(st, 'handed')
+    lty = log.ty
+    l0, n = lty.len(log.term), SThingL.len(ts.term)
+    i = _z3.Int(_C.fresh_name('i'))
+    out = ex.fresh_wf(st, lty, 'handed')
+    st.assume(lty.len(out.term) == l0 + n)
+    st.assume(_z3.ForAll([i], _z3.Implies(_z3.And(0 <= i, i < l0), _z3.Select(lty.arr(out.term), i) == _z3.Select(lty.arr(log.term), i))))
+    st.assume(_z3.ForAll([i], _z3.Implies(_z3.And(l0 <= i, i < l0 + n),
+              _z3.Select(lty.arr(out.term), i) == _z3.Select(SThingL.arr(ts.term), i - l0)),
+              patterns=[_z3.Select(lty.arr(out.term), i)]))
+    st.env['handed'] = out
+    return _C.NONE
+_ss_update.mutates = ('handed',)
+
+def _ss_term(ex, node, st):
+    return ex.get_var(st, 'self._terminating')
+_ss_term.mutates = ()
+
+REG.spec('task_manager.py:TaskManager._state_sub_cb',
+    params   = dict(topic=T.Str, msg=SMsg),
+    self     = dict(_terminating=T.Bool),
+    returns  = T.Bool,
+    ghost    = dict(handed=SThingL),
+    locals   = dict(things=SThingL, tasks=SThingL),
+    calls    = {'ru.as_list': lambda ex, node, st: ex.ev(node.args[0], st), 'self._terminate.is_set': _ss_term,
+                'self._update_tasks': _ss_update},
+    modifies = ['handed'],
+    raises   = {},
+    ensures  = [
+      ('every-task-notification-of-the-message-is-applied-once-in-the-order-delivered',
+       'implies(not self._terminating and msg.cmd == "update", '
+       'len(handed) == len(old(handed)) + len([t for t in msg.arg if t.type == "task"]) and '
+       'forall(lambda i: implies(0 <= i < len([t for t in msg.arg if t.type == "task"]), '
+       'handed[len(old(handed)) + i] == [t for t in msg.arg if t.type == "task"][i])))'),
+      ('other-messages-change-nothing', 'implies(self._terminating or msg.cmd != "update", handed == old(handed))'),
+      ('earlier-notifications-kept', 'forall(lambda k: implies(0 <= k < len(old(handed)), handed[k] == old(handed)[k]))'),
+    ],
+    serves   = ['C06'])
